@@ -59,6 +59,13 @@ impl WorldA {
 
     pub fn gen(&mut self, rng: &mut Rng) -> Op {
         let ncl = self.conns.len() as u64;
+        let up = self.cfg.get("uptime");
+        if up > 0 && self.uptime_done <= ncl {
+            // recorded like any other operation: one long update per endpoint before anything else happens
+            let ep = self.uptime_done;
+            self.uptime_done += 1;
+            return Op::new(K_UPDATE, ep, up, 0, 0);
+        }
         let i = rng.below(ncl) as usize;
         let d = rng.below(2) as usize;
         let loss = self.cfg.get("loss") as u32;
